@@ -22,7 +22,7 @@ func main() {
 		var p *progen.Program
 		s.Inline(func() {
 			p = progen.Gen(progen.Options{MaxFiles: 2, MaxDefs: 7, Unions: true, Exceptions: true, Defaults: true, Consts: true, ConstRefs: true,
-				WantService: true, SameNames: false})
+				WantService: true, SameNames: false, Unhashable: true, Annotations: true})
 		})
 		dir := filepath.Join(*out, fmt.Sprintf("r%d", i))
 		for k, f := range p.Files {
